@@ -3,7 +3,9 @@
 From Coq Require Import List NArith ZArith.
 From GoMC Require Import Base.Bytes Base.Dec Gen.Consts Model.C01 Model.C02 Proofs.C01 Proofs.C01_dec Proofs.C01_more
   Proofs.C02_dec Proofs.C02 Proofs.C02_struct Proofs.C02_all Proofs.C02_emb.
-From GoMC Require Import Base.GoInt Model.C02_syntax Gen.C02gen Proofs.C02_expected Proofs.C02_tie Proofs.C02_tie2.
+From GoMC Require Import Base.GoInt Model.C02_syntax Gen.C02gen Proofs.C02_expected Proofs.C02_tie Proofs.C02_tie2
+  Proofs.C02_tie3 Proofs.C02_tie4 Proofs.C02_tie5.
+From GoMC Require Model.C03_syntax Gen.C03gen.
 Import ListNotations.
 Open Scope N_scope.
 
@@ -294,3 +296,110 @@ Theorem C02_table_nodup : forall ds,
   NoDup (map tf_path (type_fields ds)) /\ NoDup (map (fun tf => f_name (tf_fi tf)) (type_fields ds)).
 Proof. exact type_fields_nodup. Qed.
 Print Assumptions C02_table_nodup.
+
+(* ------------------------------------------------------------------------------------------------------------ *)
+(* STRUCTURED STEP LISTS (phase 5): statements rendered in source order and INTERPRETED; a swapped statement or a
+   changed constant changes the interpretation, not only a text *)
+
+(* Encode: nil refused, header by format (network: the tag byte; file: writeTag), error returned, then marshal -
+   the bytes are C01.doc of the tree, for both formats, every name and tree; the three error exits *)
+Theorem C02_encode_steps_ok : forall f name tr, name_too_long name = false ->
+  run_encode c02_encode_steps false (match f with Net => true | File => false end) wtag
+             (Z.of_N (tag_id tr)) (zs name) (Some (zs (payload tr))) [] false = Some (zs (doc f name tr)).
+Proof. exact encode_steps_ok. Qed.
+Theorem C02_encode_steps_errors : forall f t name body,
+  run_encode c02_encode_steps true f wtag t name body [] false = None /\
+  (32767 < Z.of_nat (length name) -> run_encode c02_encode_steps false false wtag t name body [] false = None)%Z /\
+  run_encode c02_encode_steps false f wtag t name None [] false = None.
+Proof. exact encode_steps_errors. Qed.
+(* getTagType: the unwrapping loop (interface -> its dynamic value, nil pointer -> a new zero value, Marshaler asked
+   at pointer level, dereference) and the statements after it, run on ANY value of the universe, return get_tag *)
+Theorem C02_gettag_loop_ok : forall t v, has_type t v = true ->
+  run_gettag c02_loop_steps c02_post_steps (S (ptr_depth t)) t v = Some (get_tag t v).
+Proof. exact gettag_loop_ok. Qed.
+(* writeValue: TagList (element type from the first element, header = element byte then int32 length, every element
+   after the mixed-tag test), the typed arrays (int32 length then elements), TagString (limit, int16 length,
+   bytes), maps (per entry TagEnd refused, writeTag, value; then the TagEnd byte) - each IS C01.payload of the tree *)
+Theorem C02_list_steps_ok : forall et ts, lenN ts < 2 ^ 31 -> forallb (fun t => tag_id t =? et) ts = true ->
+  run_list c02_list_steps c02_listheader_steps w32 (Z.of_N et) (map elem_of ts) = Some (zs (payload (TList et ts))).
+Proof. exact list_steps_ok. Qed.
+Theorem C02_list_steps_mixed : forall et t1 t2 ts, tag_id t1 = et -> tag_id t2 <> et ->
+  run_list c02_list_steps c02_listheader_steps w32 (Z.of_N et) (map elem_of (t1 :: t2 :: ts)) = None.
+Proof. exact list_steps_mixed. Qed.
+Theorem C02_array_steps_ok : forall l : list N, lenN l < 2 ^ 31 ->
+  run_array c02_array_steps w32 (Z.of_N (lenN l)) (zs l) = zs (payload (TByteArray l)).
+Proof. exact array_steps_ok. Qed.
+Theorem C02_int_array_steps_ok : forall l : list Z, lenN l < 2 ^ 31 ->
+  run_array c02_array_steps w32 (Z.of_N (lenN l)) (flat_map (fun z => w32 z) l) = zs (payload (TIntArray l)).
+Proof. exact int_array_steps_ok. Qed.
+Theorem C02_string_steps_ok : forall s,
+  run_string c02_string_steps w16 (zs s) = match str_tree s with TOk tr => Some (zs (payload tr)) | _ => None end.
+Proof. exact string_steps_ok. Qed.
+Theorem C02_map_steps_ok : forall es, forallb (fun kv => negb (name_too_long (fst kv))) es = true ->
+  run_map c02_map_steps wtag (map entry_of es) = Some (zs (payload (TCompound es))).
+Proof. exact map_steps_ok. Qed.
+(* typeFields: byIndex.Less is the lexicographic order on index sequences, the sort's less function is the order by
+   (name, depth, tagged first, index sequence), for ALL pairs; dominantField on the candidates of one name in that
+   order returns exactly the entry the model's `dominates` keeps, and nothing when none dominates *)
+Theorem C02_index_less_ok : forall a b, run_index_less c02_index_less a b = path_ltb a b.
+Proof. exact index_less_ok. Qed.
+Theorem C02_sort_less_ok : forall x y, run_less c02_sort_keys c02_index_less (tf_key x) (tf_key y) = tf_ltb x y.
+Proof. exact sort_less_ok. Qed.
+Theorem C02_dominant_ok : forall g, Sorted.StronglySorted rank_le g -> NoDup (map tf_path g) ->
+  match run_dominant c02_dominant (fun f => length (tf_path f)) tf_tagged g with
+  | Some x => In x g /\ dom_test g x = true
+  | None => forall x, In x g -> dom_test g x = false
+  end.
+Proof. exact dominant_ok. Qed.
+
+(* THE HEADLINE OVER TRANSLATED PIECES OF BOTH SIDES (encoder: Gen/C02gen.v; decoder: Gen/C03gen.v of property C03):
+   what the interpretation of the encoder's scalar table writes for an integer of 16/32/64 bits (signed or unsigned)
+   is read back to the same value by the interpretation of the decoder's acceptance-table entry of that tag; the
+   translated TagString clause against the translated string entry / readString; the bytes of the translated list
+   and array steps are read back to the same tree by the decoder's reads, the rest of the stream untouched *)
+Theorem C02_roundtrip_translated :
+  (forall sg w z, w = 16 \/ w = 32 \/ w = 64 -> int_okb sg w z = true ->
+     exists wp e, assocZ c02_scalar_writes (Z.of_N (int_tag w)) = Some wp /\ dec_entry (Z.of_N (int_tag w)) = Some e /\
+       forall rest, run_flat (C03_syntax.interp_entry e (gty_of sg w)) (ns (run_wop wp sg z) ++ rest) = FOk (XInt z) rest) /\
+  (forall s bs, run_string c02_string_steps w16 (zs s) = Some bs ->
+     exists e, dec_entry nbt_TagString = Some e /\
+       forall rest, run_flat (C03_syntax.interp_entry e GStr) (ns bs ++ rest) = FOk (XStr s) rest) /\
+  (forall et ts bs rest fuel, wf (TList et ts) -> nest_ok (TList et ts) -> (length (payload (TList et ts)) < fuel)%nat ->
+     run_list c02_list_steps c02_listheader_steps w32 (Z.of_N et) (map elem_of ts) = Some bs ->
+     run_flat (dec_tree fuel idList) (ns bs ++ rest) = FOk (TList et ts) rest) /\
+  (forall l rest fuel, wf (TByteArray l) -> (length (payload (TByteArray l)) < fuel)%nat ->
+     run_flat (dec_tree fuel idByteArray) (ns (run_array c02_array_steps w32 (Z.of_N (lenN l)) (zs l)) ++ rest)
+     = FOk (TByteArray l) rest).
+Proof.
+  split; [exact int_roundtrip_translated|]. split; [exact string_roundtrip_translated|].
+  split; [exact list_roundtrip_translated|exact array_roundtrip_translated].
+Qed.
+
+Print Assumptions C02_encode_steps_ok.
+Print Assumptions C02_encode_steps_errors.
+Print Assumptions C02_gettag_loop_ok.
+Print Assumptions C02_list_steps_ok.
+Print Assumptions C02_list_steps_mixed.
+Print Assumptions C02_array_steps_ok.
+Print Assumptions C02_int_array_steps_ok.
+Print Assumptions C02_string_steps_ok.
+Print Assumptions C02_map_steps_ok.
+Print Assumptions C02_index_less_ok.
+Print Assumptions C02_sort_less_ok.
+Print Assumptions C02_dominant_ok.
+Print Assumptions C02_roundtrip_translated.
+
+(* the interpretation lemmas are sensitive to the order and the constants of the rendered statements: the same
+   lemmas are FALSE for a swapped sort key, a swapped list header, swapped header branches of Encode *)
+Example C02_ex_steps_sensitive :
+  (exists x y, run_less [SKName; SKTagged; SKDepth; SKIndex] c02_index_less (tf_key x) (tf_key y) <> tf_ltb x y) /\
+  run_listheader [WLen32; WLHElemByte] w32 3 1 <> zs (3 :: be 4 1) /\
+  run_encode [ENilErr; EGetTag; EHeader HWriteTag HTagByte; EErrRet; EMarshal] false true wtag 1 [] (Some [7%Z]) [] false
+    <> Some (zs (doc Net [] (TByte 7))).
+Proof.
+  split; [|split].
+  - exists (TF [0; 0]%nat (FInfo [97] false false false) true YBool), (TF [1]%nat (FInfo [97] false false false) false YBool).
+    vm_compute. discriminate.
+  - vm_compute. discriminate.
+  - vm_compute. discriminate.
+Qed.
